@@ -1,4 +1,4 @@
-"""C13 -- a long-lived project answers like a fresh one (clauses R13.1-R13.15)."""
+"""C13 -- a long-lived project answers like a fresh one (clauses R13.1-R13.16)."""
 from __future__ import annotations
 
 import ast
@@ -23,6 +23,7 @@ EXPLANATION = (
 )
 EXPLANATION += ' R13.15: the unfiltered observer resets concluded data on created, moved, removed and validate.'
 EXPLANATION += ' R13.14: a function that remembers its answer under a key reads, in the computation of the remembered value, nothing of its parameters that the key does not contain (followed into the helpers it calls).'
+EXPLANATION += ' R13.16: in the auto-import observer every per-file index update is dominated by the Python-file test that generate_cache applies.'
 ASSUMPTIONS = ["required event sets per cache are a hand-confirmed table (sa/rules/c13.py REQUIRED) with reasons"]
 
 MUTATOR_KIND = {"write": "changed", "move": "moved", "remove": "removed", "create_file": "created",
@@ -71,6 +72,7 @@ def check(ctx, res) -> None:
 
     memo_key_rule(ctx, res, "R13.14", (), rest=True)
     _structure_observer_rule(ctx, res)
+    _index_only_modules_rule(ctx, res)
 
 
 def _indicator_rule(ctx, res) -> None:
@@ -691,8 +693,10 @@ def _observer_constructions(idx, modname: str, fnode, ro_qual: str, ro_params):
     call of a function of the module that only wraps it -- `def _observer_of(callback, *events): return
     ResourceObserver(**dict.fromkeys(events, callback))` called as `_observer_of(cb, "created", "moved")`"""
     out = []
+    from .common import _subst_single_locals
     for c in calls_in(fnode):
-        if idx.resolve(modname, c.func) == ro_qual:
+        # `mod = rope.base.resourceobserver ... mod.ResourceObserver(...)`: a local that names the module is read through
+        if idx.resolve(modname, c.func) == ro_qual or idx.resolve(modname, _subst_single_locals(fnode, c.func)) == ro_qual:
             passed = {}
             for i, a in enumerate(c.args):
                 if i < len(ro_params):
@@ -743,6 +747,14 @@ def _structure_observer_rule(ctx, res) -> None:
         for c in calls_in(pc.methods[mname].node):
             if call_name(c) == "forget_all_data":
                 return True
+        # the reset written out: a loop over ALL cached modules (`...module_map.values()`) that resets each
+        for lp in walk_local(pc.methods[mname].node):
+            if isinstance(lp, ast.For) and any(isinstance(a, ast.Attribute) and a.attr == "module_map" for a in ast.walk(lp.iter)) \
+                    and isinstance(lp.target, ast.Name) and any(
+                        isinstance(c, ast.Call) and call_name(c) == "_forget_concluded_data" and isinstance(c.func, ast.Attribute)
+                        and isinstance(c.func.value, ast.Name) and c.func.value.id == lp.target.id for st in lp.body for c in ast.walk(st)):
+                return True
+        for c in calls_in(pc.methods[mname].node):
             if is_self_attr(c.func) and reaches_reset(c.func.attr, seen):
                 return True
         return False
@@ -791,3 +803,51 @@ def _structure_observer_rule(ctx, res) -> None:
             ": a resource that was never analysed and is moved to (or away from, or removed at) the place an import of an analysed module points to changes what "
             "that import means, and nothing forgets the old conclusion -- the long-lived project keeps answering 'unresolved' (or the old module) where a "
             "fresh one resolves it", function=m.qualname, events=sorted(events))
+
+
+def _index_only_modules_rule(ctx, res) -> None:
+    """R13.16: the auto-import index maps names to MODULES.  `generate_cache` collects Python files only; the observer that
+    keeps the index current must hold the same line: in its per-file handlers (`_changed`, `_moved`, `_removed`) every call
+    that indexes a resource (`update_resource`) or drops a module's names (`_del_if_exist`) for a single file is reached only
+    under a test that the file is a Python file (a suffix test or `is_python_file`, directly or in a method of the class)."""
+    from ..cfg import CFG
+    idx = ctx.idx
+    ai = idx.need_class("rope.contrib.autoimport.sqlite.AutoImport")
+
+    def is_py_test(t) -> bool:
+        texts = [t]
+        for c in ast.walk(t):
+            if isinstance(c, ast.Call) and is_self_attr(c.func):
+                m = idx.find_method(ai.qualname, c.func.attr)
+                if m is not None:
+                    texts.append(m.node)
+        for tt in texts:
+            for x in ast.walk(tt):
+                if isinstance(x, ast.Call) and call_name(x) == "is_python_file":
+                    return True
+                if isinstance(x, ast.Call) and call_name(x) == "endswith" and x.args and isinstance(x.args[0], ast.Constant) and x.args[0].value == ".py":
+                    return True
+        return False
+
+    n = 0
+    for hname in ("_changed", "_moved", "_removed"):
+        h = ai.methods.get(hname)
+        if h is None:
+            continue
+        cfg = CFG(h.node)
+        for nd in cfg.nodes:
+            if nd.kind != "stmt" or nd.ast is None:
+                continue
+            for c in calls_in(nd.ast):
+                if not (is_self_attr(c.func) and c.func.attr in ("update_resource", "_del_if_exist")):
+                    continue
+                # (in a loop over the Python files of a folder the elements are Python files by construction)
+                if any(isinstance(l, ast.For) and any(call_name(k) == "_python_files_in" for k in ast.walk(l.iter)) for l in cfg.loop_guards(nd.id)):
+                    continue
+                n += 1
+                ok = any(pol and is_py_test(t) for t, pol in cfg.guards(nd.id))
+                res.add("R13.16", f"AutoImport.{hname}|only-python-files-are-indexed#{n}", ok, f"{h.unit.rel}:{c.lineno}",
+                        "the file is indexed (or dropped) only if it is a Python file" if ok else
+                        f"`{ast.unparse(c)[:50]}` runs for any file that is changed, moved or removed through rope: after `notes.txt` was written with `def fn(): pass` the "
+                        "index offers `from notes import fn`, which a freshly generated index does not contain", function=h.qualname)
+    res.floor("R13.16", "per-file index updates in the observer handlers", n, 3)
